@@ -504,7 +504,7 @@ func reentStream(g *Gen, emit func(mode string, texts [][]string, tag string)) {
 	}
 	nLoop, nWalk, nTail, nMac, nLazy, nPkg, nRnd, nRep := 500, 200, 100, 80, 80, 60, 300, 40
 	if g.Thorough() {
-		nLoop, nWalk, nTail, nMac, nLazy, nPkg, nRnd, nRep = 24000, 6000, 2500, 1500, 1500, 1000, 9000, 600
+		nLoop, nWalk, nTail, nMac, nLazy, nPkg, nRnd, nRep = 16000, 4000, 2000, 1000, 1000, 800, 6000, 400
 	}
 	for i := 0; i < nLoop; i++ {
 		s := reRandomSpec(g)
